@@ -198,6 +198,10 @@ Definition holds (c : case) : bool :=
            | None => false
            | Some acc =>
                let final := a_values (w_st acc) in
+               (* what a fresh reading shows of the edited list: a value that was brought in with a
+                  comment line inside (comma lists accept "x\n# c\n y") reads back, like every
+                  field text, with its comment lines ignored *)
+               let final_read := map drop_comment_lines final in
                match o_close with
                | None =>
                    (if w_quiet acc then str_eqb dump doc else true)
@@ -205,8 +209,8 @@ Definition holds (c : case) : bool :=
                    && endswith (dec post) dump
                    && (length (dec pre) + length (dec name) + 1 + length (dec post) <=? length dump)%nat
                    && o_valid
-                   && result_eqb strs_eqb (res_strs o_reread) (Ok final)
-                   && result_eqb strs_eqb (res_strs o_again) (Ok final)
+                   && result_eqb strs_eqb (res_strs o_reread) (Ok final_read)
+                   && result_eqb strs_eqb (res_strs o_again) (Ok final_read)
                | Some _ =>
                    (* a refused write-back must leave the document as it was, and is only
                       allowed when the list became empty, a value outside the good values
